@@ -607,6 +607,24 @@ fn main() {
                     }
                 }
             } }
+            // grids: a single match is the first matching row, all matches are the matching rows in order
+            {
+                use libhaystack::val::Grid;
+                let mk = |pairs: &[(&str, Value)]| { let mut d = Dict::new(); for (k, v) in pairs { d.insert((*k).into(), v.clone()); } d };
+                let rows = vec![mk(&[("b", Value::make_int(0))]), mk(&[("a", Value::make_int(1))]), mk(&[("a", Value::make_int(2))]), mk(&[("b", Value::make_int(1))]), mk(&[("a", Value::make_int(3))])];
+                let grid = Grid::make_from_dicts(rows.clone());
+                for text in ["a", "b", "a >= 2", "c", "a or b"] {
+                    let f = Filter::try_from(text).expect("filter text");
+                    let want: Vec<&Dict> = rows.iter().filter(|r| r.filter(&f)).collect();
+                    let first = Filtered::filter(&grid, &f);
+                    let all = ListFiltered::filter_all(&grid, &f);
+                    n += 1;
+                    if first != want.first().copied() || all != want {
+                        println!("RESULT enum:filter-eval grid rows={rows:?} filter={text:?} first={first:?} all={all:?} expected={want:?}");
+                        std::process::exit(3);
+                    }
+                }
+            }
             println!("RESULT enum:filter-eval {n} filter x record cases agree with the oracle");
         }
         // ---- C06 enumerator: every whole-hour offset -12:00..+14:00 and some fractional ones: accepted with the same instant and
